@@ -50,20 +50,26 @@ package nexus
 // ---------------------------------------------------------------------------
 
 //@ func (*io/nexus.Scanner).read
+//@   flag countcalls
 //@   requires s != nil && s.r != nil
+//@   ensures [one_whole_rune_is_read_not_a_byte] ghost(ncalls_ReadRune) == old(ghost(ncalls_ReadRune)) + 1
 //@   allocates iface
 //@   assigns stream(s.r)
 //@   ensures [consumes_one_rune_or_signals_end] (remaining(s.r) == old(remaining(s.r)) - 1 && canunread(s.r)) || (remaining(s.r) == old(remaining(s.r)) && old(remaining(s.r)) == 0 && result == 0 && !canunread(s.r))
 //@   ensures [non_negative] remaining(s.r) >= 0
 
 //@ func (*io/nexus.Scanner).unread
+//@   flag countcalls
 //@   requires s != nil && s.r != nil
+//@   ensures [one_whole_rune_is_given_back] ghost(ncalls_UnreadRune) == old(ghost(ncalls_UnreadRune)) + 1
 //@   allocates iface
 //@   assigns stream(s.r)
 //@   ensures [gives_back_at_most_the_last_rune] remaining(s.r) == old(remaining(s.r)) + (old(canunread(s.r)) ? 1 : 0) && !canunread(s.r)
 
 //@ func (*io/nexus.Scanner).scanWhitespace
+//@   flag countcalls
 //@   requires s != nil && s.r != nil
+//@   ensures [every_rune_consumed_goes_into_the_literal_which_is_the_text_of_the_buffer_but_a_final_nul] ghost(ncalls_String) == old(ghost(ncalls_String)) + 1 && (old(remaining(s.r)) > 0 ==> ghost(ncalls_WriteRune) - old(ghost(ncalls_WriteRune)) <= old(remaining(s.r)) - remaining(s.r) && ghost(ncalls_WriteRune) - old(ghost(ncalls_WriteRune)) >= old(remaining(s.r)) - remaining(s.r) - 1)
 //@   allocates iface, bytes.Buffer
 //@   assigns stream(s.r)
 //@   ensures [never_gives_back_more_than_it_took] remaining(s.r) <= old(remaining(s.r)) && remaining(s.r) >= 0
@@ -72,9 +78,12 @@ package nexus
 //@   loop 1
 //@     assigns stream(s.r), content(buf)
 //@     invariant [progress_so_far] remaining(s.r) >= 0 && remaining(s.r) <= old(remaining(s.r)) && (old(remaining(s.r)) > 0 ==> remaining(s.r) < old(remaining(s.r)))
+//@     invariant [one_rune_written_per_rune_consumed] ghost(ncalls_WriteRune) == old(ghost(ncalls_WriteRune)) + (old(remaining(s.r)) > 0 ? old(remaining(s.r)) - remaining(s.r) : 1) && ghost(ncalls_String) == old(ghost(ncalls_String))
 //@     decreases remaining(s.r)
 
 //@ func (*io/nexus.Scanner).scanIdent
+//@   flag countcalls
+//@   ensures [every_rune_consumed_goes_into_the_literal_but_a_final_nul] old(remaining(s.r)) > 0 ==> ghost(ncalls_WriteRune) - old(ghost(ncalls_WriteRune)) <= old(remaining(s.r)) - remaining(s.r) && ghost(ncalls_WriteRune) - old(ghost(ncalls_WriteRune)) >= old(remaining(s.r)) - remaining(s.r) - 1
 //@   requires s != nil && s.r != nil
 //@   allocates iface, bytes.Buffer
 //@   assigns stream(s.r)
@@ -83,6 +92,7 @@ package nexus
 //@   loop 1
 //@     assigns stream(s.r), content(buf)
 //@     invariant [progress_so_far] remaining(s.r) >= 0 && remaining(s.r) <= old(remaining(s.r)) && (old(remaining(s.r)) > 0 ==> remaining(s.r) < old(remaining(s.r)))
+//@     invariant [one_rune_written_per_rune_consumed] ghost(ncalls_WriteRune) == old(ghost(ncalls_WriteRune)) + (old(remaining(s.r)) > 0 ? old(remaining(s.r)) - remaining(s.r) : 1)
 //@     decreases remaining(s.r)
 
 //@ func (*io/nexus.Scanner).Scan
@@ -254,6 +264,8 @@ package nexus
 //@     invariant [well_formed] pw(p) && p.s == old(p.s) && p.s.r == old(p.s.r)
 //@     invariant [measure_does_not_grow] pm(p) <= old(pm(p)) && pm(p) <= lold(pm(p))
 //@     decreases pm(p) + (stop ? 0 : 1)
+//@     step [an_accepted_pair_maps_the_identifier_read_first_to_the_name_read_second] (tok3 == COMMA || tok3 == ENDOFCOMMAND || tok3 == ENDOFLINE) ==> has(translationTable, key) && translationTable[key] == value
+//@     step [the_table_is_complete_at_the_semicolon] (tok3 == COMMA || tok3 == ENDOFCOMMAND || tok3 == ENDOFLINE) ==> next(stop) == (end == ";")
 
 //@ func (*io/nexus.Parser).parseTrees
 //@   flag noframe
